@@ -217,6 +217,10 @@ def prepare(cfg):
     # oracle first, on the unmutated code: the code under test is the reload machinery, the oracle is
     # "a fresh template on that content"
     STATE['fresh'] = [_fresh(i) for i in range(len(VERSIONS))]
+    if cfg.get('two_files'):
+        fresh = STATE['fresh']
+        prepare2()
+        STATE['fresh'] = fresh
     if cfg.get('mutant'):
         _mutate(cfg['mutant'])
     # compile the load: documents once, natively (the compiler reads its own source with inspect)
@@ -628,3 +632,80 @@ def explain(cfg, *args):
             detail.append(repr(exc))
         out['history'] = detail
     return out
+
+
+# ---- two files: a page that uses a macro template through load:, both may change -------------------------
+PAGE = '/model/site/page.pt'
+PART = '/model/site/part.pt'
+PAGE_VERSIONS = [
+    b'<html><x metal:use-macro="load: part.pt"/>[a0]</html>',
+    b'<html>[a1]<x metal:use-macro="load: part.pt"><i metal:fill-slot="s">F</i></x></html>',
+]
+PART_VERSIONS = [
+    b'<p>b0<b metal:define-slot="s">d0</b></p>',
+    b'<section>b1</section>',
+]
+
+
+def _fresh2(pv, qv):
+    FILES.clear()
+    FILES[PAGE] = [PAGE_VERSIONS[pv], 1]
+    FILES[PART] = [PART_VERSIONS[qv], 1]
+    return FT(PAGE, auto_reload=True).render()
+
+
+def prepare2():
+    STATE['fresh2'] = {}
+    for pv in (0, 1):
+        for qv in (0, 1):
+            STATE['fresh2'][(pv, qv)] = _fresh2(pv, qv)
+
+
+def history2(o0: int, a0: int, m0: int, o1: int, a1: int, m1: int, o2: int, a2: int, m2: int,
+             o3: int, a3: int, m3: int) -> bool:
+    """
+    pre: 0 <= o0 < 5 and 0 <= o1 < 5 and 0 <= o2 < 5 and 0 <= o3 < 5
+    pre: 0 <= a0 < 2 and 0 <= a1 < 2 and 0 <= a2 < 2 and 0 <= a3 < 2
+    pre: 0 <= m0 and 0 <= m1 and 0 <= m2 and 0 <= m3
+    post: _
+    """
+    # operations: 0 write page version a, 1 write part version a, 2 touch page, 3 touch part, 4 render the page
+    n = CFG.get('n', 3)
+    if 'o0' in CFG and o0 != CFG['o0']:
+        return True
+    ops = ((o0, a0, m0), (o1, a1, m1), (o2, a2, m2), (o3, a3, m3))[:n]
+    FILES.clear()
+    FILES[PAGE] = [PAGE_VERSIONS[0], 5]
+    FILES[PART] = [PART_VERSIONS[0], 6]
+    cur = {PAGE: 0, PART: 0}
+    used = {PAGE: [5], PART: [6]}
+    seen = {PAGE: None, PART: None}
+    COUNT['cook'] = 0
+    cooks = 0
+    t = FT(PAGE, auto_reload=True)
+    ok = True
+    for (op, a, m) in ops + ((4, 0, 0),):
+        if op < 4:
+            path = PAGE if op in (0, 2) else PART
+            for u in used[path]:
+                if m == u:
+                    return True
+            used[path].append(m)
+            if op == 0:
+                cur[PAGE] = 0 if a == 0 else 1
+                FILES[PAGE] = [PAGE_VERSIONS[cur[PAGE]], m]
+            elif op == 1:
+                cur[PART] = 0 if a == 0 else 1
+                FILES[PART] = [PART_VERSIONS[cur[PART]], m]
+            else:
+                FILES[path] = [FILES[path][0], m]
+            continue
+        got = t.render()
+        for path in (PAGE, PART):
+            if seen[path] is None or FILES[path][1] != seen[path]:
+                cooks += 1
+                seen[path] = FILES[path][1]
+        ok = ok and got == STATE['fresh2'][(cur[PAGE], cur[PART])] and COUNT['cook'] == cooks
+        if not ok:
+            break
+    return _res(ok)
